@@ -182,7 +182,8 @@ impl Sink {
 
 // ---------------- abstraction of the tokenizer ----------------
 /// control part: what decides how the next character is read and dispatched
-pub struct XCtl { pub state: XmlState, pub cr: bool, pub recons: bool, pub cur: char, pub ig: bool, pub temp: Seq<char> }
+/// `crok`: the character-reference sub-tokenizer, while there is one, satisfies its representation invariant
+pub struct XCtl { pub state: XmlState, pub cr: bool, pub crok: bool, pub recons: bool, pub cur: char, pub ig: bool, pub temp: Seq<char> }
 /// token-under-construction part
 pub struct XBuf {
     pub log: Seq<XOut>, pub value: Seq<char>, pub tag_kind: TagKind, pub tag_name: Seq<char>, pub attrs: Seq<Attribute>,
@@ -194,13 +195,15 @@ pub open spec fn wf_ctl(c: XCtl) -> bool {
     &&& (c.temp.len() > 0 ==> look_state(c.state) && !c.ig)
     &&& all_kw_ok(c.temp)
     &&& (look_state(c.state) ==> !c.recons)
-    &&& (c.cr ==> cr_host(c.state))
+    // a character reference starts right after '&' was read: no CR is pending and nothing is to be re-consumed (U-xcr (N))
+    &&& (c.cr ==> cr_host(c.state) && !c.ig && !c.recons && c.crok)
     &&& (c.ig ==> c.cur == '\n')
     &&& (c.recons ==> c.cur != '\r' && c.cur != '\0')
 }
 impl XmlTokenizer {
     pub closed spec fn ctl(&self) -> XCtl {
-        XCtl { state: self.state.v, cr: self.char_ref_tokenizer.v.is_some(), recons: self.reconsume.v, cur: self.current_char.v,
+        XCtl { state: self.state.v, cr: self.char_ref_tokenizer.v.is_some(),
+               crok: self.char_ref_tokenizer.v is Some ==> self.char_ref_tokenizer.v.unwrap().cwf(), recons: self.reconsume.v, cur: self.current_char.v,
                ig: self.ignore_lf.v, temp: self.temp_buf.v@ }
     }
     pub closed spec fn buf(&self) -> XBuf {
